@@ -92,8 +92,14 @@ def run(case):
         records.append((pos1, r, alts, gts))
 
     ncopies = 2 if gt in ("1/1", "1|1") else 1
+    refdiff_del = []
     for m in tv:
         for (pos1, r, alts) in vcfgen.records_for(g, ref, m, mnp_style):
+            if kind_of(m.op) == "del" and len(r) >= 2 and rng.random() < 0.35:
+                # the VCF's assembly differs from the RefSeq inside the deleted stretch: same deletion, other bases
+                k = rng.randrange(1, len(r))
+                r = r[:k] + {"A": "C", "C": "G", "G": "T", "T": "A", "N": "A"}[r[k]] + r[k + 1:]
+                refdiff_del.append(m)
             add(pos1, r, alts, gt)
             used_pos.add(pos1)
         copies[m] += ncopies
@@ -222,6 +228,11 @@ def run(case):
         res.check("ref_differs_reexpressed", cov.coverage(o) == 10 * k and cov.coverage(Mutation(o.pos, "_")) == 20 - 10 * k,
                   "record whose REF differs from the RefSeq-derived reference is not re-expressed against it",
                   variant=str(o), record_gt=g2, support=cov.coverage(o), reference=cov.coverage(Mutation(o.pos, "_")), **desc)
+    for o in refdiff_del:
+        k = copies[o]
+        res.check("ref_differs_reexpressed", cov.coverage(o) == 10 * k,
+                  "deletion record whose REF bases differ from the RefSeq-derived reference is not re-expressed "
+                  "against it", variant=str(o), record_gt=gt, support=cov.coverage(o), **desc)
     for o in ignored:
         res.check("odd_records_ignored", cov.coverage(o) == 0 and cov.coverage(Mutation(o.pos, "_")) == 20,
                   "non-diploid / missing genotype changed the evidence", variant=str(o), **desc)
@@ -231,9 +242,12 @@ def run(case):
         from aldy.genotype import genotype
 
         rc = db.reference_copy()
+        # a structure given on the command line has no meaning for VCF input: it stays two copies
+        user_cn = rng.choice([None, None, None, ["1"], ["1", "1", "1"]])
+        desc["user_structure"] = user_cn
         try:
             with util.time_limit(60):
-                out = genotype(db.path, vcf, None, None, genome=genome, vcf_sample_idx=sidx)
+                out = genotype(db.path, vcf, None, None, genome=genome, vcf_sample_idx=sidx, cn_solution=user_cn)
             sols = list(out.values())[0]
             err = None
         except util.Slow:
